@@ -188,3 +188,34 @@ func ctrInv(s *seqCounters) bool {
 //@   loop 1 invariant 0 <= i && i <= int(s._nrCounters)
 //@   loop 1 invariant forall k in [0, i) :: s.counters[k].seqNr != seqNr
 //@   loop 1 decreases int(s._nrCounters) - i
+
+// ---------------------------------------------------------------------------
+// C19: lock discipline of the ingest receiver
+
+//@ guarded_by ChannelMgr.mu: channels
+//@ guarded_by channel.mu: trDatas, trIDs
+//@ guarded_by Receiver.noLockExists: streams
+
+//@ lock_inv ChannelMgr.mu(cm): cm.channels != nil && (all k string :: haskey(cm.channels, k) ==> cm.channels[k] != nil)
+
+//@ func newChannel
+//@   trusted
+//@   ensures result != nil && fresh(result)
+//@   allocates
+
+// AddChannel: get-or-create under the manager's lock: a channel that exists when the lock
+// is acquired is kept (one channel object per name), otherwise exactly this name is added.
+//@ func (*ChannelMgr).AddChannel
+//@   requires cm != nil && cm.cfg != nil
+//@   ensures  kept: locked(cm.channels[chName]) != nil ==> cm.channels[chName] == locked(cm.channels[chName])
+//@   ensures  present: cm.channels[chName] != nil
+//@   ensures  others: all k string :: k != chName ==> cm.channels[k] == locked(cm.channels[k])
+//@   assigns  cm.channels[*]
+//@   allocates
+//@   noframe
+//@   loop 1 invariant 0 <= rangeidx && rangeidx <= len(cm.cfg.Channels) && cm != nil && cm.cfg != nil && cm.channels != nil && cm.channels[chName] == nil
+//@   loop 1 invariant all k string :: cm.channels[k] == locked(cm.channels[k])
+
+//@ func (*ChannelMgr).GetChannel
+//@   requires cm != nil
+//@   ensures  ret0 == locked(cm.channels[chName])
